@@ -32,6 +32,24 @@ def _name_kind(fi, expr, at):
             if isinstance(n, ast.If) and norm(n.test) == "isinstance(%s, type)" % expr.id and len(n.body) == 1 and norm(n.body[0]) == "%s = %s.__name__" % (expr.id, expr.id) \
                     and not n.orelse and n.lineno < expr.lineno:
                 return True, "normalised by `if isinstance(%s, type): %s = %s.__name__`" % (expr.id, expr.id, expr.id)
+        # general form: every definition of the variable that reaches the use is X.__name__, or is a value V bound on a path
+        # on which `isinstance(V, type)` is false (so V is not a class), or is the variable itself after the idiom
+        du = defuse_of(fi)
+        cfg = du.cfg
+        defs = du.reaching(expr.id, at.id if hasattr(at, "id") else at)
+        if defs:
+            ok = True
+            for d in defs:
+                v = d[1]
+                if isinstance(v, ast.AST) and norm(v).endswith(".__name__"):
+                    continue
+                if isinstance(v, ast.Name) and d[0] != "ENTRY":
+                    conds = [(norm(t_), p_) for (t_, p_) in cfg.conditions_of(d[0])]
+                    if ("isinstance(%s, type)" % v.id, False) in conds:
+                        continue
+                ok = False
+            if ok:
+                return True, "every reaching definition of %s is a class name or a value that is not a class" % expr.id
     return False, "raw key %s (a class object when the annotation is a class)" % t
 
 
